@@ -26,12 +26,17 @@ import (
 // once). Non-termination of the pagination is detected here.
 
 type c07Case struct {
-	Keys   []string `json:"keys"` // explicit directory objects end in "/"
+	Keys   []string `json:"keys"`           // explicit directory objects end in "/"
+	Dead   []string `json:"dead,omitempty"` // files that exist but for which getObj answers ErrSkipObj (posix: current version is a delete marker)
 	Skip   []string `json:"skip"`
 	Prefix string   `json:"prefix"`
 	Delim  string   `json:"delimiter"`
 	Marker string   `json:"marker"`
 	Max    int      `json:"max"`
+	// end-to-end runs only: which stage produced it (a replay re-runs that whole stage), where
+	Stage  string `json:"stage,omitempty"`
+	Bucket string `json:"bucket,omitempty"`
+	API    string `json:"api,omitempty"`
 }
 
 func c07Size(k string) int {
@@ -115,10 +120,13 @@ func c07List(xs []string) string {
 	return strings.Join(xs, ",")
 }
 
-func c07KeysToken(keys []string) string {
+func c07KeysToken(keys, dead []string) string {
 	var o []string
 	for _, k := range keys {
 		o = append(o, fmt.Sprintf("%s:%d:%s", lib.HexS(k), c07Size(k), lib.HexS(c07Etag(k))))
+	}
+	for _, k := range dead {
+		o = append(o, lib.HexS(k)+":D:-")
 	}
 	return c07List(o)
 }
@@ -131,9 +139,14 @@ func c07HexList(xs []string) string {
 	return c07List(o)
 }
 
-func c07FS(keys []string) (fstest.MapFS, backend.GetObjFunc) {
+func c07FS(keys, dead []string) (fstest.MapFS, backend.GetObjFunc) {
 	m := fstest.MapFS{}
 	dirobj := map[string]bool{}
+	isDead := map[string]bool{}
+	for _, k := range dead {
+		isDead[k] = true
+		m[k] = &fstest.MapFile{Data: make([]byte, 1)}
+	}
 	for _, k := range keys {
 		if strings.HasSuffix(k, "/") {
 			dirobj[k] = true
@@ -144,6 +157,9 @@ func c07FS(keys []string) (fstest.MapFS, backend.GetObjFunc) {
 	}
 	getObj := func(path string, d fs.DirEntry) (s3response.Object, error) {
 		if d.IsDir() && !dirobj[path] {
+			return s3response.Object{}, backend.ErrSkipObj
+		}
+		if !d.IsDir() && isDead[path] {
 			return s3response.Object{}, backend.ErrSkipObj
 		}
 		fi, err := d.Info()
@@ -163,7 +179,7 @@ func c07FS(keys []string) (fstest.MapFS, backend.GetObjFunc) {
 
 // c07Run follows the markers of the real Walk to the end. limit bounds the number of pages.
 func c07Run(c c07Case, limit int) (pages []c07Page, terminated bool, err error) {
-	fsys, getObj := c07FS(c.Keys)
+	fsys, getObj := c07FS(c.Keys, c.Dead)
 	marker := c.Marker
 	for i := 0; i < limit; i++ {
 		r, e := backend.Walk(context.Background(), fsys, c.Prefix, c.Delim, marker, int32(c.Max), getObj, c.Skip)
@@ -253,6 +269,19 @@ func c07RandCase(r *lib.Rand, thorough bool) c07Case {
 		}
 	}
 	c := c07Case{Keys: keys}
+	if r.Chance(20) {
+		// some files exist but are not objects (getObj answers ErrSkipObj, as posix does for a key
+		// whose current version is a delete marker)
+		var live []string
+		for _, k := range keys {
+			if !strings.HasSuffix(k, "/") && r.Chance(40) {
+				c.Dead = append(c.Dead, k)
+			} else {
+				live = append(live, k)
+			}
+		}
+		c.Keys = live
+	}
 	if r.Chance(25) {
 		c.Skip = []string{"0"}
 	}
@@ -374,6 +403,9 @@ func c07Corpus() []c07Case {
 		{Keys: []string{"photos/2006/Jan/a.jpg", "photos/2006/Feb/b.jpg", "sample.jpg"}, Delim: "/", Max: 1},
 		{Keys: []string{"photos/2006/Jan/a.jpg", "photos/2006/Feb/b.jpg", "sample.jpg"}, Delim: "/", Prefix: "photos/2006/", Max: 1},
 		{Keys: []string{"a/b/c", "a/b0", "a0"}, Delim: "/", Prefix: "a/", Max: 1},
+		{Keys: []string{"a/b", "c"}, Dead: []string{"a/x", "d"}, Max: 10},            // files that are not objects (delete markers) are not listed
+		{Keys: []string{"a/b", "c"}, Dead: []string{"a/x", "d"}, Delim: "/", Max: 1}, //
+		{Keys: []string{"c"}, Dead: []string{"a/x"}, Delim: "/", Max: 10},            // a directory holding only such files: phantom common prefix
 		{Keys: []string{"a", "b", "c"}, Max: 0},
 		{Keys: []string{"a", "b", "c"}, Max: 3},
 		{Keys: []string{"a", "b", "c"}, Max: 2, Marker: "a"},
@@ -401,6 +433,7 @@ func c07CaseFromReplay(in map[string]interface{}) c07Case {
 		return out
 	}
 	c.Keys = strs(in["keys"])
+	c.Dead = strs(in["dead"])
 	c.Skip = strs(in["skip"])
 	c.Prefix, _ = in["prefix"].(string)
 	c.Delim, _ = in["delimiter"].(string)
@@ -438,7 +471,7 @@ func c07Walk(a lib.Args, res *lib.Result) error {
 	add := func(c c07Case, origin string) error {
 		limit := 4*len(c.Keys) + 8
 		pages, terminated, err := c07Run(c, limit)
-		canon := fmt.Sprintf("%q|%q|%q|%q|%q|%d", c.Keys, c.Skip, c.Prefix, c.Delim, c.Marker, c.Max)
+		canon := fmt.Sprintf("%q|%q|%q|%q|%q|%q|%d", c.Keys, c.Dead, c.Skip, c.Prefix, c.Delim, c.Marker, c.Max)
 		shape := "delim:other"
 		switch c.Delim {
 		case "":
@@ -461,7 +494,7 @@ func c07Walk(a lib.Args, res *lib.Result) error {
 			}
 			cases = append(cases, c)
 			runs = append(runs, append(pages, c07Page{next: "\x00nonterminating"}))
-			lines = append(lines, fmt.Sprintf("walk judge %s %s %s %s %s %d %s", c07KeysToken(c.Keys), c07HexList(c.Skip),
+			lines = append(lines, fmt.Sprintf("walk judge %s %s %s %s %s %d %s", c07KeysToken(c.Keys, c.Dead), c07HexList(c.Skip),
 				lib.HexS(c.Prefix), lib.HexS(c.Delim), lib.HexS(c.Marker), c.Max, strings.Join(toks, " ")))
 		} else {
 			toks := make([]string, len(pages))
@@ -470,7 +503,7 @@ func c07Walk(a lib.Args, res *lib.Result) error {
 			}
 			cases = append(cases, c)
 			runs = append(runs, pages)
-			lines = append(lines, fmt.Sprintf("walk judge %s %s %s %s %s %d %s", c07KeysToken(c.Keys), c07HexList(c.Skip),
+			lines = append(lines, fmt.Sprintf("walk judge %s %s %s %s %s %d %s", c07KeysToken(c.Keys, c.Dead), c07HexList(c.Skip),
 				lib.HexS(c.Prefix), lib.HexS(c.Delim), lib.HexS(c.Marker), c.Max, strings.Join(toks, " ")))
 		}
 		if len(cases) >= batch {
@@ -480,6 +513,9 @@ func c07Walk(a lib.Args, res *lib.Result) error {
 	}
 
 	if in := a.ReplayInput(); in != nil {
+		if st, _ := in["stage"].(string); st != "" {
+			return nil // an end-to-end finding: replayed by its own stage
+		}
 		if err := add(c07CaseFromReplay(in), "replay"); err != nil {
 			return err
 		}
@@ -563,7 +599,10 @@ func c07Evaluate(res *lib.Result, c c07Case, pages []c07Page, verdict string) {
 		}
 		i, _ := strconv.Atoi(parts[0])
 		eq, ok, mok, pclass, model := parts[1] == "eq", parts[2] == "ok", parts[3] == "ok", parts[4], parts[5]
-		in := map[string]interface{}{"keys": c.Keys, "skip": c.Skip, "prefix": c.Prefix, "delimiter": c.Delim, "marker": c.Marker, "max": c.Max, "page": i}
+		in := map[string]interface{}{"keys": c.Keys, "dead": c.Dead, "skip": c.Skip, "prefix": c.Prefix, "delimiter": c.Delim, "marker": c.Marker, "max": c.Max, "page": i}
+		if c.Stage != "" {
+			in["stage"], in["bucket"], in["api"] = c.Stage, c.Bucket, c.API
+		}
 		impl := ""
 		if i < len(pages) {
 			impl = pages[i].String() + " token=" + pages[i].token()
@@ -595,6 +634,6 @@ func c07Evaluate(res *lib.Result, c c07Case, pages []c07Page, verdict string) {
 
 func init() {
 	checks["c07"] = checkDef{"C07",
-		"(key set, skip list, prefix, delimiter, marker, max) → real backend.Walk on fstest.MapFS, pages followed to the end. Corpus of minimal witnesses; exhaustive over all representable key sets over {a,-,/} (quick: ≤2 keys of length ≤2, prefixes/markers of length ≤1; thorough: ≤3 keys of length ≤3, prefixes/markers of length ≤2) × delimiters {\"\",/,-,a,//,a/} × max 0..4; random key sets over {a,b,-,.,/,0} (≤5 keys of length ≤4, nested/near-colliding names favoured; thorough also ≤7 keys of length ≤6), prefixes/markers derived from keys or random, 25% with skip list [\"0\"]. End to end: ListObjects V1/V2 on a real gateway (posix) over scenario and random key sets with true sizes and the PUTs' ETags, pages followed through NextMarker / NextContinuationToken, same judge. Non-trivial = non-empty key set and max > 0; distinct by the whole input.",
-		[]checkFn{c07Walk, c07E2E}}
+		"(key set, skip list, prefix, delimiter, marker, max) → real backend.Walk on fstest.MapFS, pages followed to the end. Corpus of minimal witnesses; exhaustive over all representable key sets over {a,-,/} (quick: ≤2 keys of length ≤2, prefixes/markers of length ≤1; thorough: ≤3 keys of length ≤3, prefixes/markers of length ≤2) × delimiters {\"\",/,-,a,//,a/} × max 0..4; random key sets over {a,b,-,.,/,0} (≤5 keys of length ≤4, nested/near-colliding names favoured; thorough also ≤7 keys of length ≤6), prefixes/markers derived from keys or random, 25% with skip list [\"0\"]. 20% with files that are not objects (getObj skips them). End to end: ListObjects V1/V2 on a real gateway (posix) over scenario and random key sets with true sizes and the PUTs' ETags, pages followed through NextMarker / NextContinuationToken, same judge; and on a gateway with object versioning, buckets Enabled and Suspended, keys whose current version is a delete marker / re-created / deleted by version id, expected = what HEAD shows. Non-trivial = non-empty key set and max > 0; distinct by the whole input.",
+		[]checkFn{c07Walk, c07E2E, c07E2EVersioned}}
 }
